@@ -7,7 +7,8 @@ population is accepted only when the analysis can discharge it:
   (a) a later run-time check of the same function fails exactly when it is false (the pairing of SA-INVPAIR),
   (b) a live (release) branch that dominates it already established the same predicate,
   (c) it repeats, on the operands handed over, a belief of a crate function it calls (hoisting a callee's belief),
-  (d) it is the negation-free copy of a release-live `assert!` of the same function.
+  (d) it is the negation-free copy of a release-live `assert!` of the same function,
+  (e) it is a comparison that holds for every value its operands can take (interval enclosure from the leaf types and operators).
 Anything else is reported as an unreviewed debug-only belief.  Removing a belief never alarms."""
 import json, os, re
 from collections import Counter
@@ -35,8 +36,18 @@ def fn_key(path):
     return re.sub(r"\{closure#\d+\}", "{closure}", path)
 
 
+def _items(e):
+    """the element an iterator yields, however the iteration is spelled (`for`, `while let`, `iter()`, `into_iter()`): one token"""
+    if not isinstance(e, tuple) or not e or not isinstance(e[0], str):
+        return e
+    if e[0] == "call" and re.search(r"Iterator>?::next$", e[1]):
+        return ("const", None, "next-item", "")
+    return tuple(_items(y) if isinstance(y, tuple) and y and isinstance(y[0], str) else
+                 (tuple(_items(z) if isinstance(z, tuple) else z for z in y) if isinstance(y, tuple) else y) for y in e)
+
+
 def pred_key(prog, e, truth):
-    t = validate.closure_canon(prog, e)
+    t = validate.closure_canon(prog, _items(e))
     t = re.sub(r"local:\w+", "local", t)
     return ("" if truth else "!") + t
 
@@ -73,6 +84,107 @@ def _block_of(f, sp):
     return None
 
 
+_W = {"u8": 8, "u16": 16, "u32": 32, "u64": 64, "usize": 64, "bool": 1}
+
+
+def _ival(f, e, depth=0):
+    """(lo, hi, bits) enclosing every value an unsigned integer expression can take, from the types of its leaves and the operators
+    alone (no path facts); None when not known.  An operation whose enclosure leaves its type is not enclosed (it could wrap)."""
+    e = strip(e)
+    if depth > 12 or not isinstance(e, tuple) or not e:
+        return None
+    k = e[0]
+
+    def of_type(ty):
+        ty = (ty or "").lstrip("&").replace("mut ", "").strip()
+        w = _W.get(ty)
+        return (0, (1 << w) - 1, w) if w else None
+    if k == "const":
+        if isinstance(e[1], int) and e[1] >= 0:
+            w = _W.get((e[3] or "").strip(), 64) if len(e) > 3 else 64
+            return (e[1], e[1], w)
+        return None
+    if k in ("param", "local"):
+        return of_type(f.locals[e[1]]["ty"])
+    if k == "deref":
+        x = strip(e[1])
+        if x[0] in ("param", "local"):
+            return of_type(f.locals[x[1]]["ty"])
+        return None
+    if k == "cast":
+        t = of_type(e[2])
+        a = _ival(f, e[1], depth + 1)
+        if t is None:
+            return None
+        if a is not None and a[1] <= t[1]:
+            return (a[0], a[1], t[2])
+        return t
+    if (k == "call" and e[1].endswith("::len") and len(e[2]) == 1) or k == "len":
+        # the length of an array behind an unsizing cast: its type says it
+        from ..sym import walk
+        for x in walk(e[2][0] if k == "call" else e[1]):
+            ty = None
+            if x[0] == "const" and len(x) > 3:
+                ty = x[3]
+            elif x[0] in ("param", "local"):
+                ty = f.locals[x[1]]["ty"]
+            m = re.search(r"\[[^;\]]+; (\d+)(?:_usize)?\]", ty or "")
+            if m:
+                return (int(m.group(1)), int(m.group(1)), 64)
+            if x[0] in ("param", "local", "const", "call"):
+                break
+        return None
+    if k == "bin":
+        op = e[1]
+        a, b = _ival(f, e[2], depth + 1), _ival(f, e[3], depth + 1)
+        if op == "BitAnd":
+            his = [x[1] for x in (a, b) if x is not None]
+            ws = [x[2] for x in (a, b) if x is not None]
+            return (0, min(his), max(ws)) if his else None
+        if a is None or b is None:
+            return None
+        w = max(a[2], b[2])
+        top = (1 << w) - 1
+        if op == "Add":
+            r = (a[0] + b[0], a[1] + b[1], w)
+        elif op == "Sub":
+            r = (a[0] - b[1], a[1] - b[0], w)
+        elif op == "Mul":
+            r = (a[0] * b[0], a[1] * b[1], w)
+        elif op == "Shr" and b[0] == b[1] and b[0] < 64:
+            r = (a[0] >> b[0], a[1] >> b[0], a[2])
+            top = (1 << a[2]) - 1
+        elif op == "Shl" and b[0] == b[1] and b[0] < 64:
+            r = (a[0] << b[0], a[1] << b[0], a[2])
+            top = (1 << a[2]) - 1
+        elif op == "Div" and b[0] > 0:
+            r = (a[0] // b[1], a[1] // b[0], w)
+        elif op == "Rem" and b[0] > 0:
+            r = (0, min(a[1], b[1] - 1), w)
+        elif op == "BitOr":
+            r = (max(a[0], b[0]), (1 << max(a[1], b[1]).bit_length()) - 1, w)
+        else:
+            return None
+        if r[0] < 0 or r[1] > top:
+            return None
+        return r
+    return None
+
+
+def _by_ranges(f, e, truth):
+    """the comparison holds for every value its operands can take (types of the leaves and operators only)"""
+    from .features import _cmp_of
+    c = _cmp_of(e if truth else ("un", "Not", e))
+    if c is None:
+        return None
+    op, a, b = c
+    ia, ib = _ival(f, a), _ival(f, b)
+    if ia is None or ib is None:
+        return None
+    ok = {"Lt": ia[1] < ib[0], "Le": ia[1] <= ib[0], "Ne": ia[1] < ib[0] or ib[1] < ia[0], "Eq": ia[0] == ia[1] == ib[0] == ib[1]}.get(op, False)
+    return "holds for every value of its operands: [%d, %d] %s [%d, %d]" % (ia[0], ia[1], op, ib[0], ib[1]) if ok else None
+
+
 def _discharge(prog, f, sy, e, truth, sp):
     from .features import pair_with_runtime_check
     pb = _block_of(f, sp)
@@ -84,6 +196,12 @@ def _discharge(prog, f, sy, e, truth, sp):
         return None
     blk = sw[0]
     want = validate.closure_canon(prog, e)
+    try:
+        w = _by_ranges(f, e, truth)
+    except Exception:
+        w = None
+    if w:
+        return w
     if truth:
         try:
             w = pair_with_runtime_check(prog, f, sy, blk, e)
